@@ -20,7 +20,7 @@ ASSUMPTIONS = [
     "readings); the suggestion is wrong only if it is rejected in both readings while another position is accepted",
     "allowed-child oracle: the name labels a transition on some path from the start state to an accepting state",
 ]
-REQUIRED = ["parents_with_more_than_60_children", "candidates_with_a_past", "stateful_queries", "index_cases", "restorable_cases", "foreign_refused", "allowed_true", "allowed_false", "sorted_cases"]
+REQUIRED = ["every_count_cases", "candidates_with_a_prefix", "parents_with_more_than_60_children", "candidates_with_a_past", "stateful_queries", "index_cases", "restorable_cases", "foreign_refused", "allowed_true", "allowed_false", "sorted_cases"]
 EXHAUSTIVE = {"quick": False, "thorough": False}
 
 
@@ -38,6 +38,27 @@ def plan(tier, seed):
     heavy = [r for r in rules if len(emlkit.spec_of(r).names) > 8]
     light = [r for r in rules if r not in heavy]
     return [{"rules": [r]} for r in heavy] + [{"rules": light[i::8]} for i in range(8)]
+
+
+def insertion_verdicts(m, seq, cand):
+    """Reference verdict of seq with cand inserted at every position, in O(len * states): forward states and, backwards, the output each
+    state leads to through the rest of the sequence."""
+    if len(seq) <= 24:
+        return [m.verdict(tuple(seq[:i]) + (cand,) + tuple(seq[i:])) for i in range(len(seq) + 1)]
+    n = len(seq)
+    fwd = [0]
+    for a in seq:
+        fwd.append(m.delta[fwd[-1]][a if a in m.delta[fwd[-1]] else relang.FOREIGN])
+    states = range(m.n)
+    after = {s_: m.out[s_] for s_ in states}          # output reached from state s_ through seq[i:], for i = n
+    res = [None] * (n + 1)
+    for i in range(n, -1, -1):
+        row = m.delta[fwd[i]]
+        res[i] = after[row[cand if cand in row else relang.FOREIGN]]
+        if i:
+            a = seq[i - 1]
+            after = {s_: after[m.delta[s_][a if a in m.delta[s_] else relang.FOREIGN]] for s_ in states}
+    return res
 
 
 def judge(ctx, rule_name, r, m, rank, seq, cand, element):
@@ -65,6 +86,9 @@ def judge(ctx, rule_name, r, m, rank, seq, cand, element):
             other.add_child(elsewhere)
             new = elsewhere.copy()
         ctx.count("candidates_with_a_past")
+    if (len(seq) + len(rule_name)) % 5 == 0:
+        new.prefix = ("eml", "stmml", "x")[len(seq) % 3]      # a qualified candidate (as imported documents have them): its name is its name
+        ctx.count("candidates_with_a_prefix")
     wit = {"rule": rule_name, "seq": list(seq), "candidate": cand, "candidate_past": past}
     ctx.evaluated()
     try:
@@ -88,7 +112,7 @@ def judge(ctx, rule_name, r, m, rank, seq, cand, element):
             if not all(ra[i] <= ra[i + 1] for i in range(len(ra) - 1)):
                 ctx.violation("breaks-declared-order", f"{rule_name}: children {list(seq)} are in declared order, inserting "
                                                        f"{cand!r} at {idx} gives {after}", wit)
-        verdicts = [m.verdict(tuple(seq[:i]) + (cand,) + tuple(seq[i:])) for i in range(len(seq) + 1)]
+        verdicts = insertion_verdicts(m, seq, cand)
         if relang.ACCEPT in verdicts:
             ctx.count("restorable_cases")
             if verdicts[idx] == relang.REJECT:
@@ -183,6 +207,22 @@ def run_rule(ctx, rule_name):
                     ctx.count("parents_with_more_than_60_children")
             else:
                 longs += 1
+    # ... and, for a few rules, every count from 1 to 520 of one repeatable child in front of later-declared siblings (an implementation
+    # that works in blocks has its edges somewhere)
+    if rule_name in ("keywordSetRule", "attributeListRule", "methodsRule", "accessRule", "datasetRule"):
+        rich = max((random_valid(m, ctx.rng, 14) or [] for _ in range(8)), key=lambda q: len(set(q)))
+        done = False
+        for i in range(len(rich)):
+            for a in names:
+                if done or rank[a] >= rank[rich[i]] or m.verdict(tuple(rich[:i]) + (a,) * 3 + tuple(rich[i:])) != relang.ACCEPT:
+                    continue
+                for count in range(1, 521):
+                    seq = tuple(rich[:i]) + (a,) * count + tuple(rich[i:])
+                    if m.verdict(seq) != relang.ACCEPT:
+                        break
+                    judge(ctx, rule_name, mrule.Rule(rule_name), m, rank, seq, a, element)
+                    ctx.count("every_count_cases")
+                done = True
     reps = 30 if ctx.tier == "quick" else 600
     for _ in range(reps if names else 0):
         full = random_valid(m, ctx.rng, ctx.rng.choice([2, 5, 9, 14]))
@@ -245,7 +285,24 @@ def run_rule(ctx, rule_name):
                         i = ctx.rng.randrange(len(cur))
                         parent.remove_child(parent.children[i])
                         del cur[i]
-            if ctx.rng.random() < 0.5 and cur:
+            if isinstance(got, int) and 0 <= got <= len(cur) and len(cur) >= 2 and ctx.rng.random() < 0.4:
+                # the suggestion is followed (the child goes where the rule said and stays there), then two other children are
+                # exchanged for two others: the count is what the rule object last saw plus one, the suggested child is in place
+                kept = probe            # (the very node the rule was asked about)
+                parent.add_child(kept, got)
+                cur.insert(got, cand)
+                for _r in range(2):
+                    others = [j for j, c_ in enumerate(parent.children) if c_ is not kept]
+                    if not others:
+                        break
+                    j = ctx.rng.choice(others)
+                    parent.remove_child(parent.children[j])
+                    del cur[j]
+                    nm = ctx.rng.choice(names)
+                    at = ctx.rng.randint(0, len(cur))
+                    (mrule.Rule(rule_name), parent.add_child(Node(nm), at))
+                    cur.insert(at, nm)
+            elif ctx.rng.random() < 0.5 and cur:
                 # ... or one child out and another one in: the same number of children as at the previous query
                 i = ctx.rng.randrange(len(cur))
                 parent.remove_child(parent.children[i])
